@@ -833,6 +833,11 @@ def op_checkmultisig(stack, tx_obj, input_index):
                 if point.verify(z, sig):
                     # break if so, this sig is valid!
                     break
+            else:
+                # we ran out of keys without finding one that this
+                # signature verifies against, so the check fails
+                stack.append(encode_num(0))
+                return True
         # if we made it this far, we have to add a 1 to the stack
         # use encode_num(1)
         stack.append(encode_num(1))
